@@ -69,6 +69,7 @@ func runRem(s remSpec) (held [][]heldSlice, snap snapshot, panics int32) {
 			for j := g; j < s.M; j += s.NG {
 				k := s.Lo + int64(j)
 				ads[g].SetAndGetRemoved(k, k, remSize(s.Variant, k))
+				beat()
 			}
 		}(g)
 	}
